@@ -159,3 +159,5 @@ Theorem c14_queuing_scenario : forall co q1 q2 ops,
   snd (fst (sc_buffered co q1 ops)) = snd (fst (sc_buffered co q2 ops)) /\
   snd (sc_buffered co q1 ops) = snd (sc_buffered co q2 ops).
 Proof. exact sc_buffered_queued_same_wire. Qed.
+
+(* Note after the second read-only review of these pins (selftest/audit/REVIEW-2-2026-10-02.md): c14_queuing_scenario: see the note in C13.v.  c14_buffered_wf is an instance of c20_stats_wf_from_zero. *)
